@@ -11,7 +11,7 @@ from collections import OrderedDict
 
 from . import absdom
 from .absdom import FULL, TOP, State, term_place, under
-from .absint import Analyzer, is_mut_ref, LEN_MAX
+from .absint import Analyzer, is_mut_ref, LEN_MAX, GOOD_VARIANT
 
 STD_MUTATORS_LEN = ("::push", "::push_str", "::push_back", "::push_front", "::pop", "::pop_front", "::pop_back", "::clear", "::truncate",
                     "::resize", "::insert", "::remove", "::swap_remove", "::drain", "::splice", "::split_off", "::retain", "::dedup",
@@ -638,6 +638,15 @@ class Interproc:
                         i2 = st2.val_iv(pay)
                         if i2[0] is not None and i2[1] is not None:
                             pi = i2
+                            # upper bounds of the payload by parameter terms (`Ok(start)` with start <= data.len() - 133)
+                            pr = {}
+                            if pay[0] == "n" and pay[1] is not None:
+                                for pt in self._param_terms(b, st2):
+                                    d1 = st2.bound_diff(pay[1], pt)
+                                    if d1 is not None and abs(d1) <= (1 << 20):
+                                        pr[pt] = d1 + pay[2]
+                            cur_r = ret.get("optrels", "?")
+                            ret["optrels"] = pr if cur_r == "?" else {k_: max(c_, pr[k_]) for k_, c_ in cur_r.items() if k_ in pr}
                 if pi is None:
                     ret["optpay"] = None
                 elif pi != "none":
@@ -1245,9 +1254,25 @@ class Interproc:
                 if av[0] == "ref" and av[1] is not None and not isinstance(av[1], str):
                     return ("ref", av[1], av[2] + v[2][1:])
         op_ = ret.get("optpay", "?")
-        if ret.get("opt") is not False and op_ not in (None, "?") and dt is not None and self.f.types[dt]["s"].startswith(("std::option::Option<", "core::option::Option<")):
-            pay_ = ("iv", op_[0], op_[1])
-            return ("opt", "some", pay_) if ret.get("opt") is True else ("opt", "cond", ("unknown",), pay_)
+        if ret.get("opt") is not False and op_ not in (None, "?") and dt is not None and self.f.types[dt]["k"] == "adt" and self.f.types[dt]["adt"] in GOOD_VARIANT:
+            good = GOOD_VARIANT[self.f.types[dt]["adt"]][0]
+            rels_ = ret.get("optrels")
+            inst = []
+            for pt, c_ in (rels_.items() if isinstance(rels_, dict) else ()):
+                w = self.instantiate_term(an, ctx, pt)
+                if w is not None and w[0] == "n":
+                    inst.append((w, c_))
+            if not inst:
+                pay_ = ("iv", op_[0], op_[1])
+                return ("opt", "some", pay_) if ret.get("opt") is True else ("opt", "cond", ("unknown",), pay_)
+            st.kill(d, whole_local=not d[1])
+            P = ("v", d[0], d[1] + (("dc", good), "0"))
+            pv = ("n", P, 0)
+            st.set_iv(P, op_[0], op_[1])
+            for w, c_ in inst:
+                st.add_le(pv, w, c_)
+            st.sym[d] = ("opt", "some", pv) if ret.get("opt") is True else ("opt", "cond", ("unknown",), pv)
+            return "stored"
         if ret.get("opt") is True:
             return ("opt", "some", None)
         if ret.get("opt") is False:
